@@ -44,6 +44,10 @@ def vector_tt(rng):
         gen.apply_scale(cores, rng, sc)
         kind += '_scaled'
     t = tt.TT(cores)
+    with probe.oracle():  # integer-valued cores can cancel exactly: a numerically zero tensor is inadmissible for relative cuts (0/0)
+        from ..dense import dense_b, core_scale
+        if float(np.max(np.abs(dense_b(t)))) <= 1e-9 * core_scale(t.cores):
+            return vector_tt(rng)
     if rng.random() < 0.5:
         t = gen.provenance(rng, t)
         kind += '_with_history'
